@@ -193,16 +193,26 @@ class PsRecorder:
         def expm(*a, **k):
             try:
                 ratio = complex(a[1]) / (-1j * complex(rec.dt) / 2)
-                rec.events.append(["ev0" if state["last"] == "sys" else "ev1", "+" if ratio.real > 0 else "-"])
+                rec.events.append(["ev", "+" if ratio.real > 0 else "-"])
             except Exception:
                 rec.events.append(["unobserved"])
             state["last"] = None
             return rec.o_exp(*a, **k)
-        Environ.read, Environ.GetLR, mm.expm_krylov = read, get, expm
+        from renormalizer.mps.mp import MatrixProduct
+        self.MP, self.o_upd = MatrixProduct, MatrixProduct._update_mps
+
+        def upd(self_, *a, **k):
+            try:
+                cidx = a[1] if len(a) > 1 else k["cidx"]
+                rec.events.append(["upd", int(cidx[0]), int(cidx[-1])])
+            except Exception:
+                rec.events.append(["unobserved"])
+            return rec.o_upd(self_, *a, **k)
+        Environ.read, Environ.GetLR, mm.expm_krylov, MatrixProduct._update_mps = read, get, expm, upd
         return self
 
     def __exit__(self, *a):
-        self.Environ.read, self.Environ.GetLR, self.mm.expm_krylov = self.o_read, self.o_get, self.o_exp
+        self.Environ.read, self.Environ.GetLR, self.mm.expm_krylov, self.MP._update_mps = self.o_read, self.o_get, self.o_exp, self.o_upd
 
 
 def evolve_once(sys_, state, scheme, c, dt, td, keep_config=False):
@@ -251,11 +261,11 @@ def run_case(sys_, case, idx, seed):
                     new = evolve_once(sys_, cur, scheme, c, dt, td)
                 evs = adaptive_trace.events(lrec.messages, dt)
                 out.setdefault("adaptive_traces", []).append({"kind": scheme, "target": adaptive_trace.UNITS, "tol": 20, "events": evs or [], "call": ci, "idx": idx})
-            elif scheme == "ps" and c["solver"] == "krylov" and not (c["adaptive"] and scheme == c["scheme"]):
+            elif scheme in ("ps", "ps2") and c["solver"] == "krylov" and not (c["adaptive"] and scheme == c["scheme"]):
                 start = "R" if cur.to_right else "L"
                 with PsRecorder(dt) as prec:
                     new = evolve_once(sys_, cur, scheme, c, dt, td)
-                out.setdefault("ps_traces", []).append({"n": len(cur), "start": start, "events": prec.events, "idx": idx, "call": ci})
+                out.setdefault("ps_traces", []).append({"n": len(cur), "start": start, "scheme": scheme, "events": prec.events, "idx": idx, "call": ci})
             else:
                 new = evolve_once(sys_, cur, scheme, c, dt, td)
         except Exception as e:
